@@ -3,6 +3,7 @@ import Autog.Model.Phase4
 import Autog.Model.Pipeline
 import Autog.Lemmas.Frame
 import Autog.Lemmas.StaticP4
+import Autog.Lemmas.LayersPipeline
 /-! # C16 — VAlign centres and PackRight right-aligns every band with exact spacing
 
     Theorems about the model functions `execVerticalAlign` and `execPackRight` (Autog/Model/Phase4.lean), which the
@@ -192,20 +193,6 @@ namespace Autog
 
 /-! ## the widths the positioners see are the caller's sizes -/
 
-theorem statEq_width (g g' : G) (h : StatEq g g') (n : Nat) (hn : n < g'.nodes.size) :
-    (g'.node n).w = if n < g.nodes.size then (g.node n).w else 0 := by
-  by_cases h0 : n < g.nodes.size
-  · have := h.stat n h0
-    simp only [Node.stat, Prod.mk.injEq] at this
-    simp [h0, this.2.1]
-  · simp only [h0, if_false]
-    exact (h.fresh n (by omega) hn).2.1
-
-/-- the state the positioner receives: cycle breaking, layering, long-edge cutting and ordering have kept the node table -/
-theorem statEq_upto_phase3 (ord : G → M G) (hord : ∀ g g', ord g = .ok g' → StatEq g g') (cfg : Cfg) (g0 g1 g2 g3 : G)
-    (h1 : phase1 cfg.p1 g0 = .ok g1) (h2 : phase2Model cfg g1 = .ok g2) (h3 : phase3Model ord g2 = .ok g3) : StatEq g0 g3 :=
-  ((statEq_phase1 _ _ _ h1).trans (statEq_phase2Model _ _ _ h2)).trans (statEq_phase3Model ord hord _ _ h3)
-
 /-- END TO END: in every band the positioner lays out, the width of a real node is the size the caller configured for it and the
     width of a helper node is 0 — so the exact-extent, centring and right-alignment statements above are statements in terms of
     the caller's sizes -/
@@ -218,5 +205,25 @@ theorem C16_widths_from_input (ord : G → M G) (hord : ∀ g g', ord g = .ok g'
   intro n hn
   exact statEq_width g0 g3 (statEq_upto_phase3 ord hord cfg g0 g1 g2 g3 h1 h2 h3) n
     (hwf.bound n (List.mem_flatMap.2 ⟨l, hl, hn⟩))
+
+end Autog
+
+namespace Autog
+
+/-- END TO END: the hypothesis `LayersWF` of every statement above is itself a theorem about the composed model — the state phase 3
+    hands to the positioner always has well-formed layer lists, whatever the input (`layersWF_upto_phase3`: the layer construction
+    partitions the node numbers, cutting long edges appends fresh helper nodes, the ordering model only reorders) -/
+theorem C16_pipeline_layersWF : type_of% @layersWF_upto_phase3 := @layersWF_upto_phase3
+
+/-- … so, on the composed model, exact spacing of every band under VAlign needs no assumption at all -/
+theorem C16_valign_spacing_on_pipeline (cfg : Cfg) (g1 g2 g3 : G) (h2 : phase2Model cfg g1 = .ok g2)
+    (h3 : phase3Model (fun g => (orderWMedianP 24 g).map (·.1)) g2 = .ok g3) (l : Layer) (hl : l ∈ g3.layers.toList) :
+    Phase4Simple.Spaced cfg.ns (xsOf (execVerticalAlign cfg.ns g3) l) (widthsOf (execVerticalAlign cfg.ns g3) l) :=
+  C16_valign_spacing cfg.ns g3 (layersWF_upto_phase3 cfg g1 g2 g3 h2 h3) l hl
+
+theorem C16_packright_spacing_on_pipeline (cfg : Cfg) (g1 g2 g3 : G) (h2 : phase2Model cfg g1 = .ok g2)
+    (h3 : phase3Model (fun g => (orderWMedianP 24 g).map (·.1)) g2 = .ok g3) (l : Layer) (hl : l ∈ g3.layers.toList) :
+    Phase4Simple.Spaced cfg.ns (xsOf (execPackRight cfg.ns g3) l) (widthsOf (execPackRight cfg.ns g3) l) :=
+  C16_packright_spacing cfg.ns g3 (layersWF_upto_phase3 cfg g1 g2 g3 h2 h3) l hl
 
 end Autog
